@@ -167,6 +167,8 @@ impl CliRef {
     fn on_input(&mut self, data: &[u8], out: &str) -> Option<String> {
         let rd = self.peer.as_mut()?;
         let ms = match rd.decode_all(data) { Ok(m) => m, Err(_) => { self.peer = None; return None; } };   // desynchronised: stop judging
+        // a call that failed may or may not have consumed the transaction it was answering: stop judging
+        if out.split(' ').any(|t| t.starts_with("err:")) { self.peer = None; return None; }
         let cmds: Vec<&RMsg> = ms.iter().filter(|m| m.typ == 20).collect();
         // media gate: one media / data message in the call, and an event for it
         if ms.len() == 1 && (ms[0].typ == 8 || ms[0].typ == 9 || ms[0].typ == 18) && !out.contains("err:") {
